@@ -83,13 +83,17 @@ func c10ShapedLine(shape string, k, n int) string {
 	if shape == "" {
 		return string(rune('A'+k%26)) + strings.Repeat("a", n-1)
 	}
+	if shape == "€*" {
+		// multi-byte text: the charge is per byte on the wire, not per rune
+		return strings.Repeat("€", n/3) + strings.Repeat("a", n%3)
+	}
 	if n <= len(shape) {
 		return shape[:n]
 	}
 	return shape + strings.Repeat(string(rune('a'+k%26)), n-len(shape))
 }
 
-var c10Shapes = []string{"PASS ", "PASS", "pass ", "PRIVMSG #c :", "NICK ", "PONG :", "\x01", "QUIT :"}
+var c10Shapes = []string{"PASS ", "PASS", "pass ", "PRIVMSG #c :", "NICK ", "PONG :", "\x01", "QUIT :", "€*"}
 
 var c10RegLines = []string{"NICK me", "USER ident 12 * :Real Name"}
 
@@ -967,7 +971,7 @@ func init() {
 	Register(&Prop{
 		ID: "C10",
 		Rule: "A case is one session: a fresh client (created and connected at virtual time 0; NICK and USER are the first two lines of every history) and one user task issuing letters (gap, length) = Sleep(gap); Raw(length bytes); " +
-			"gaps {0,1s,2s,2s+1/120s,2.5s,6.25s,10s,60s}, lengths {0,1,60,120,510}. Pass 1: every history to depth 4 (quick) / 6 (thorough) over 4 gaps x 3 lengths, thorough also all 40 letters to depth 4, the same to depth 3 (thorough 4) with lines that begin with PASS / pass / PRIVMSG #c : / NICK / PONG : / \\x01 / QUIT : instead of filler (pass 1c), plus threshold probes landing the penalty on 10s-2ns..10s+2ns; " +
+			"gaps {0,1s,2s,2s+1/120s,2.5s,6.25s,10s,60s}, lengths {0,1,60,120,510}. Pass 1: every history to depth 4 (quick) / 6 (thorough) over 4 gaps x 3 lengths, thorough also all 40 letters to depth 4, the same to depth 3 (thorough 4) with lines that begin with PASS / pass / PRIVMSG #c : / NICK / PONG : / \\x01 / QUIT : instead of filler, or that consist of three-byte UTF-8 characters (pass 1c), plus threshold probes landing the penalty on 10s-2ns..10s+2ns; " +
 			"pass 2: breadth-first closure of the model's penalty values, all 40 letters from one shortest history per value (distinct = penalty values); pass 3: pass-1 histories to depth 3 (thorough 4) x every menu of socket drain delays {0,0.5s,3s,11s} per line; " +
 			"pass 4: histories to depth 3 with Flood=true, and with Flood flipped before each letter in both directions. Distinct = distinct (history, delays, flood) cases, except pass 2. transitions = wire lines whose write time was compared.",
 		Assumptions: []string{
